@@ -56,7 +56,14 @@ def _with_default_chip(make):
 
 
 class SelSpec:
+    """NB: the generators give every row of a batch the same quota; `batch_group` keeps the harness from
+    stacking instances with different quotas (mixed quotas are outside the documented input format)."""
+
     fixed_horizon = True
+
+    def batch_group(self, inst):
+        return self.step_bound(inst)
+
     has_checker = False
     family = "selection"
 
